@@ -90,11 +90,16 @@ def run(tier):
         if "msk" in ds.data_vars:
             out["msk"] = ds["msk"].data
         return out
-    A = arrays(full)
+    try:
+        A = arrays(full)
+    except (KeyError, IndexError, ValueError, AttributeError) as exc:
+        chk.violation("dataset_structure", {"read": "full", "exception": type(exc).__name__}, {"exception": repr(exc)[:300]},
+                      f"the dataset read from a 2-band image with mask, grid, classification and segmentation lacks a variable / band: {exc!r}")
+        A = None
     rel, relmeta = [], {}
     accepted = [b for b in behs if not b["refused"]]
     idx = rng.permutation(len(accepted))[: (300 if tier == "quick" else 3000)]
-    for j in idx:
+    for j in (idx if A is not None else []):
         b = accepted[j]
         q = b["roi"]
         roi = {"col": {"first": q["fc"], "last": q["lc"]}, "row": {"first": q["fr"], "last": q["lr"]}, "margins": [q["ml"], q["mu"], q["mr"], q["md"]]}
@@ -104,7 +109,12 @@ def run(tier):
             chk.violation("roi_read", {"exception": type(exc).__name__}, {"roi": roi, "exception": repr(exc)[:200]}, f"reading with ROI {roi} raised")
             continue
         c0, r0, w, h = b["window"]
-        K = arrays(part)
+        try:
+            K = arrays(part)
+        except (KeyError, IndexError, ValueError, AttributeError) as exc:
+            chk.violation("dataset_structure", {"read": "roi", "exception": type(exc).__name__}, {"roi": roi, "exception": repr(exc)[:300]},
+                          f"the dataset read with ROI {roi} lacks a variable / band: {exc!r}")
+            continue
         coords_ok = (list(part.coords["row"].data) == list(range(r0, r0 + h)) and list(part.coords["col"].data) == list(range(c0, c0 + w)))
         names = sorted(set(A) & set(K))
         shapes_ok = all(K[x].shape == (h, w) for x in names) and set(A) == set(K)
